@@ -115,14 +115,15 @@ class LoopSpec:
             env["G_" + k] = v
         if extra:
             env.update(extra)
+        env["__caller_env__"] = st.env        # a pushed frame: forks clone the real frame chain with it
         return env
 
     def _token_done(self, ex, s2, unit, consumed, saved_env):
         """ghost update when the last part of a unit has been emitted (or an empty unit skipped)"""
         s2.ghost = dict(s2.ghost)
         if self.same is not None and "same" in s2.ghost:
-            env = self._with_env(s2, {"UNIT": unit, "CONSUMED": consumed})
             keep = s2.env
+            env = self._with_env(s2, {"UNIT": unit, "CONSUMED": consumed})
             s2.env = env
             try:
                 v, _ = ex.eval1(self.same, s2)
@@ -151,7 +152,7 @@ class LoopSpec:
         try:
             for v, s2 in ex.eval(self.step, st):
                 del s2.handled[depth:]
-                s2.env = saved_env if s2 is st else _strip_ghost_env(s2.env, saved_env)
+                s2.env = saved_env if s2 is st else s2.env["__caller_env__"]
                 if isinstance(v, Raised):
                     ex.oblige(s2, f"emit:{stream.name}:specification-step-raises", "emit", z3.BoolVal(False), node)
                     continue
@@ -200,7 +201,7 @@ class LoopSpec:
         try:
             for v, s2 in ex.eval(self.step, st):
                 del s2.handled[depth:]
-                s2.env = saved_env if s2 is st else _strip_ghost_env(s2.env, saved_env)
+                s2.env = saved_env if s2 is st else s2.env["__caller_env__"]
                 if isinstance(v, Raised):
                     yield s2
                     continue
